@@ -138,6 +138,12 @@ class Conn:
         self.alive = True
         self.loss_episode = False
         self.dup = 0
+        # RFC 6582 bookkeeping: `recover` is the highest offset sent when the last recovery / timeout began
+        # (initially before the first byte); a third duplicate ACK must trigger a fast retransmission exactly when the
+        # acknowledgement covers more than `recover`
+        self.recover = -1
+        self.in_recovery = False
+        self.Pin = []          # [start, end) of the peer's data segments that began inside the advertised window
         self.prev_wnd = None
         self.last_rto = None
         self.mtu = 1500
@@ -198,7 +204,8 @@ class Oracle:
         elif k == "tcp.connect":
             iss = int(op.split("iss=")[1])
             syn = [s for s in outs if "S" in s["fl"]]
-            self.active = {"idx": int(t[1]), "iss": iss, "syn_seen": False, "myopts": parse_opts(syn[0]["opt"]) if syn else parse_opts("")}
+            self.active = {"idx": int(t[1]), "iss": iss, "syn_seen": False, "myopts": parse_opts(syn[0]["opt"]) if syn else parse_opts(""),
+                           "mywnd": syn[0]["wnd"] if syn else 0}
             self.next_ep = max(self.next_ep, int(t[1]) + 1)
             if not syn or syn[0]["seq"] != iss:
                 pass  # the pinned ISS is harness plumbing, not a property
@@ -239,6 +246,7 @@ class Oracle:
         c.edge = max(h["synwnd"] if not h["cookie"] else 0, h.get("ackwnd", 0) << c.scale)
         c.mtu, c.cc = self.mtu, self.cc
         c.prev_wnd = h["synwnd"]
+        c.adv_wnd = h.get("mywnd", 0)      # the window of the stack's SYN-ACK (never scaled)
         c.hs = h
         c.cookie = h["cookie"]
         self.conn[idx] = c
@@ -281,7 +289,7 @@ class Oracle:
             sa = [s for s in outs if "S" in s["fl"] and "A" in s["fl"]]
             if sa:
                 self.hs[p] = {"p": p, "irs": f["seq"], "S": sa[0]["seq"], "cookie": self.cookie, "synopts": parse_opts(f["opt"]),
-                              "myopts": parse_opts(sa[0]["opt"]), "synwnd": f["wnd"], "acks": [], "done": False, "queued": []}
+                              "myopts": parse_opts(sa[0]["opt"]), "mywnd": sa[0]["wnd"], "synwnd": f["wnd"], "acks": [], "done": False, "queued": []}
                 if sa[0]["ack"] != (f["seq"] + 1) % M:
                     bad.append("c03.synack-wrong-ack")
             return
@@ -340,6 +348,7 @@ class Oracle:
             c.ts = so["ts"] and mine["ts"]
             c.edge = f["wnd"] if "S" in f["fl"] else (f["wnd"] << c.scale)
             c.prev_wnd = c.edge
+            c.adv_wnd = a.get("mywnd", 0)      # the window of the stack's SYN (never scaled)
             c.mtu, c.cc = self.mtu, self.cc
             self.conn[a["idx"]] = c
             self.byport[40000] = c
@@ -362,6 +371,13 @@ class Oracle:
         off = sdiff(f["seq"], (c.irs + 1) % M)
         if f["len"] and abs(off) < (1 << 30):
             c.P.append((off, f["data"]))
+            # did the segment begin before the right edge of the window advertised when it arrived (the advertised
+            # window is the promised one rounded down by the scale: up to 2^scale - 1 bytes of slack)?
+            rb, wb = f.get("rcv_nxt_before"), f.get("adv_wnd_before")
+            # (a window field of 65535 is saturated: the window the stack keeps may be larger than it can say)
+            sat = wb is not None and (wb >> c.my_ws) >= 65535
+            if rb is not None and wb is not None and wb > 0 and (sat or off < rb + wb + (1 << c.my_ws) - 1) and off + f["len"] > rb:
+                c.Pin.append((off, off + f["len"]))
         if "F" in f["fl"] and c.peer_fin is None and off + f["len"] >= c.rcv_nxt and off <= c.rcv_nxt + c.adv_wnd:
             c.peer_fin = off + f["len"]
         a = sdiff(f["ack"], (c.iss + 1) % M)
@@ -378,6 +394,10 @@ class Oracle:
             c.una = a
             c.dup = 0
             c.last_rto = None
+            if c.in_recovery and a > c.recover:
+                # full acknowledgement: recovery ends; the mark moves to the highest offset sent so far
+                c.in_recovery = False
+                c.recover = c.max_end - 1
         elif a == c.una and f["len"] == 0 and "S" not in f["fl"] and "F" not in f["fl"] and c.max_end > c.una:
             c.credits += 1
             if w == c.prev_wnd:
@@ -459,6 +479,17 @@ class Oracle:
                 c.adv_edge = edge if c.adv_edge is None else max(edge, c.adv_edge)
                 if ra < c.rcv_nxt:
                     bad.append("c04.ack-moved-backwards")
+                if ra > c.rcv_nxt:
+                    # C04: data wholly outside the advertised window is never accepted: every newly acknowledged byte
+                    # lies in a segment that began inside the window advertised when it arrived
+                    hi = ra if c.peer_fin is None else min(ra, c.peer_fin)
+                    x = c.rcv_nxt
+                    while x < hi:
+                        nx = max([e for (o, e) in c.Pin if o <= x < e], default=None)
+                        if nx is None:
+                            bad.append("c04.data-outside-the-advertised-window-accepted")
+                            break
+                        x = nx
                 c.rcv_nxt = max(c.rcv_nxt, ra)
                 c.adv_wnd = s["wnd"] << c.my_ws
                 # C04: the advertised window follows the free receive buffer (it reopens when the application reads):
@@ -484,12 +515,13 @@ class Oracle:
             if waiting and nothing_in_flight and not any(s["len"] > 0 or "F" in s["fl"] for s in outs):
                 bad.append("c02.window-open-but-queued-data-not-sent")
         # C05: the third duplicate ACK triggers a retransmission of the earliest unacknowledged segment
-        if f.get("isdup") and c.dup == 3 and not c.loss_episode:
+        if f.get("isdup") and c.dup == 3 and not c.in_recovery and c.una > c.recover:
+            first = not c.loss_episode
             c.loss_episode = True
+            c.in_recovery = True
+            c.recover = f["max_end_before"] - 1 if f.get("max_end_before") is not None else c.max_end - 1
             if not any(sdiff(s["seq"], (c.iss + 1) % M) == c.una and (s["len"] > 0 or "F" in s["fl"]) for s in outs):
-                bad.append("c05.no-fast-retransmit")
-        elif f.get("isdup") and c.dup == 3:
-            pass
+                bad.append("c05.no-fast-retransmit" if first else "c05.no-fast-retransmit-in-a-later-loss-episode")
 
     # -- application ----------------------------------------------------------------------------
     def on_write(self, c, t, head, outs, bad, op):
@@ -566,6 +598,9 @@ class Oracle:
             if c.last_rto is not None and d < 2 * c.last_rto:
                 bad.append("c05.timeout-not-doubled")
             c.last_rto = d
+            # a timeout abandons fast recovery and moves the RFC 6582 mark to the highest offset sent
+            c.in_recovery = False
+            c.recover = c.max_end - 1
         if outstanding and d >= 0 and not c.prev_wnd:
             # the peer's window is closed: the timer fires, nothing may be sent; the back-off ends in ErrTimeout
             c.loss_episode = True
